@@ -1,12 +1,12 @@
 package main
 
 import (
-	"sort"
-	"os"
 	"fmt"
 	"go/ast"
 	"go/token"
 	"go/types"
+	"os"
+	"sort"
 	"strings"
 
 	"golang.org/x/tools/go/ssa"
@@ -1170,7 +1170,6 @@ func (fr *Frame) loopBackObligations(li *loopInfo) {
 	}
 }
 
-
 // ---------- cost accounting (C20) ----------
 
 func (ct *Contract) hasCost() bool {
@@ -1343,7 +1342,6 @@ func (fr *Frame) callCost(mode string, c *ssa.CallCommon, args []Val, res Val) (
 	return sum, true
 }
 
-
 // evalClosureAt: the value a closure literal returns for the given arguments in the current state, under an extra
 // guard (used to instantiate the predicate handed to sort.Search at the two indices that characterise its result).
 // The state is left untouched; obligations of the closure body are emitted under the guard.
@@ -1365,7 +1363,6 @@ func (fr *Frame) evalClosureAt(ins ssa.Instruction, mc *ssa.MakeClosure, args []
 	fr.cur = saved
 	return v, okr
 }
-
 
 // cursorOf: family and cell offset of the declared cursor field of fn's pointer receiver
 func (e *Engine) cursorOf(fn *ssa.Function) (fam string, off int, ok bool) {
@@ -1391,7 +1388,6 @@ func (e *Engine) cursorOf(fn *ssa.Function) (fam string, off int, ok bool) {
 
 func (q *Query) peakAddrBase() string { return q.peakBase }
 
-
 func (ct *Contract) mentionsPeak() bool {
 	for _, e := range ct.Ensures {
 		if strings.Contains(e.Src, "peak(") {
@@ -1400,7 +1396,6 @@ func (ct *Contract) mentionsPeak() bool {
 	}
 	return false
 }
-
 
 // loopFree: no back edge and no defer (size does not matter)
 func loopFree(fn *ssa.Function) bool {
